@@ -55,7 +55,21 @@ impl ToPy for StringName {
                 imp.add_from_import("typing", CALLABLE);
                 let args = self.generics.first().cloned().unwrap_or_else(Name::empty);
                 let ret = self.generics.get(1).cloned().unwrap_or_else(Name::empty);
-                core_type(CALLABLE, &[args, ret], imp)
+                // a function type without parameters has an empty list of parameter types
+                let args = match args.to_py(imp) {
+                    Core::Type { lit, generics } if lit.is_empty() && generics.is_empty() => {
+                        Core::Type {
+                            lit: String::from("[]"),
+                            generics,
+                        }
+                    }
+                    other => other,
+                };
+                let generics = vec![args, ret.to_py(imp)];
+                Core::Type {
+                    lit: String::from(CALLABLE),
+                    generics,
+                }
             }
             other => {
                 if other == clss::ANY {
